@@ -38,6 +38,16 @@ def classWF (dict : DTree) (ncls : Nat) (c : ClassDef) : Bool :=
   c.defs.all (attrDefWF dict ncls) && defsDistinct c.defs && c.oddDefaults.isEmpty
     && c.intDefaults.all (fun p => c.defs.any (fun d => Nat.beq d.attr p.1 && !d.isList && d.tclass.isNone))
 
+/-- (class id, attribute) pairs where the declared type (`list[...]` or not) and the value after construction (a list
+    or not) disagree: `assign_attr_from_defs` appends to what it finds, so a repeatable attribute that does not start as
+    a list keeps only the last of several AVPs. -/
+def listDefaultMismatches (cs : List ClassDef) (ann : List (Nat × List Nat)) : List (Nat × Nat) :=
+  cs.flatMap fun c =>
+    let want := match ann.find? (fun p => Nat.beq p.1 c.id) with
+      | some p => p.2
+      | none => []
+    (c.defs.filter fun d => d.isList != want.any (fun a => Nat.beq a d.attr)).map fun d => (c.id, d.attr)
+
 /-- Ids of the classes that are not well formed (empty = all well formed). -/
 def badClasses (dict : DTree) (cs : List ClassDef) : List Nat :=
   (cs.filter (fun c => !classWF dict cs.length c)).map (·.id)
